@@ -86,8 +86,9 @@ GATE_LIST_FIELDS = {"_gates", "_variational_gates", "_applied_gates"}
 # object itself (an event below that field) and its result is a fresh object
 OPAQUE_FIELDS = {"_cmeasure_control"}
 # naming convention of this repository for un-annotated parameters (receiver typing only)
+QUBITOP_FQ = "tangelo.toolboxes.operators.operators.QubitOperator"
 PARAM_NAME_CLASSES = {"circuit": CIRCUIT_FQ, "source_circuit": CIRCUIT_FQ, "state_prep_circuit": CIRCUIT_FQ,
-                      "gate": GATE_FQ}
+                      "gate": GATE_FQ, "qubit_operator": QUBITOP_FQ}
 
 
 def P(param: str, path: Tuple[str, ...] = ()) -> Obj:
@@ -990,9 +991,24 @@ class FuncAnalysis:
         ext_only = bool(recv) and all((not is_P(o)) and self.site_kind.get(o) == "ext-result" for o in recv)
         cands = [] if (handled or ext_only) else [c.methods[mname] for c in self.index.all_classes() if mname in c.methods]
         if cands and recv:
-            handled = True
             for m in cands:
-                out |= self._apply_summary(m, m.cls, True, recv, argv, [False] * len(argv), kwv, call)
+                # receiver objects that can be an instance of the candidate's class: objects a library returned keep that library's methods, and an object of a
+                # known repository class only receives the methods of its own hierarchy (a same-named method of an unrelated class is not a candidate for it)
+                objs = set()
+                for o in recv:
+                    if (not is_P(o)) and self.site_kind.get(o) == "ext-result":
+                        continue
+                    fq = self.obj_class(o)
+                    if fq is not None:
+                        r = self.index.resolve_fq(fq)
+                        if isinstance(r, ClassInfo) and m.cls not in self.index.mro(r) and r not in self.index.mro(m.cls):
+                            continue
+                    objs.add(o)
+                if objs:
+                    handled = True
+                    out |= self._apply_summary(m, m.cls, True, frozenset(objs), argv, [False] * len(argv), kwv, call)
+            if not handled:
+                cands = []
         if handled:
             self.an.stats["call_sites_library" if not cands else "call_sites_resolved"] += 1
             return frozenset(out)
